@@ -299,6 +299,49 @@ func genAPI(t *rapid.T) Case {
 	return c
 }
 
+// genHardPB: mostly hard weighted constraints with one dominant coefficient (they force a literal while parsing and
+// stay non-trivial), in a drawn order, plus a few soft clauses: the parse-time simplification of the hard part has to
+// reach its fix-point whatever the order of the constraints.
+func genHardPB(t *rapid.T) Case {
+	n := gen.Uniform(t, 3, 7, "n")
+	c := Case{Kind: "api"}
+	for i, m := 0, gen.Uniform(t, 3, 8, "m"); i < m; i++ {
+		mc := MC{}
+		k := gen.Uniform(t, 2, min(n, 4), "arity")
+		mc.Lits = gen.DistinctLits(t, n, k, "l")
+		switch rapid.IntRange(0, 3).Draw(t, "kind") {
+		case 0:
+			mc.AtLeast = 1
+		case 1:
+			mc.AtLeast = rapid.IntRange(1, k).Draw(t, "k")
+		default:
+			sum := 0
+			for j := range mc.Lits {
+				w := rapid.IntRange(1, 2).Draw(t, "co")
+				if j == 0 {
+					w = rapid.IntRange(2, 5).Draw(t, "dominant")
+				}
+				mc.Coeffs = append(mc.Coeffs, w)
+				sum += w
+			}
+			// degree above what the light terms can reach alone: the dominant literal is forced
+			mc.AtLeast = sum - mc.Coeffs[0] + rapid.IntRange(1, mc.Coeffs[0]).Draw(t, "k")
+			at := gen.Uniform(t, 0, k-1, "dominantAt")
+			mc.Lits[0], mc.Lits[at] = mc.Lits[at], mc.Lits[0]
+			mc.Coeffs[0], mc.Coeffs[at] = mc.Coeffs[at], mc.Coeffs[0]
+		}
+		if gen.Chance(t, 1, 8, "soft") {
+			mc.Weight = rapid.IntRange(1, 9).Draw(t, "weight")
+		}
+		c.Constrs = append(c.Constrs, mc)
+	}
+	for i, k := 0, rapid.IntRange(0, 3).Draw(t, "softUnits"); i < k; i++ {
+		c.Constrs = append(c.Constrs, MC{Lits: []int{gen.Lit(t, n, "s")}, AtLeast: 1, Weight: rapid.IntRange(1, 9).Draw(t, "sw")})
+	}
+	c.Constrs = rapid.Permutation(c.Constrs).Draw(t, "order")
+	return c
+}
+
 // addGadgets appends soft unit clauses on which the weight-greedy first model is sub-optimal
 // (one heavy clause against several lighter opposite ones whose total weight is larger), so that
 // the optimum is > 0 and reached after several improvement rounds.
@@ -365,6 +408,8 @@ func init() {
 	vf.Register(
 		vf.Sub[Case]{Name: "api", Quick: 8000, Thorough: 100000, Gen: genAPI, Check: checkAPI, Floor: 0.25,
 			Rule: "maxsat.New(...).Solve(): 1..10 constraints over <=6 named variables, hard/soft split, weights 1..9; clauses, cardinality constraints (Coeffs nil, degree -1..len+1) and PB constraints with positive coefficients (degree 0..sum+1); the constraint values (coefficient slices carved out of one array) are given to maxsat.New 3 times (map-ordered cost function) and must stay untouched; oracle = brute force; non-trivial = >=1 hard constraint and >=1 soft constraint violated at the optimum"},
+		vf.Sub[Case]{Name: "hard-pb-systems", Quick: 8000, Thorough: 100000, Gen: genHardPB, Check: checkAPI, Floor: 0.1,
+			Rule: "maxsat.New(...).Solve(): 3..8 mostly hard constraints over 3..7 named variables in a drawn order - clauses, cardinality constraints, and weighted constraints with one dominant coefficient and a degree that the other terms cannot reach (a literal is forced while parsing, the rest of the constraint stays) - plus 0..3 soft unit clauses; same oracle as api"},
 		vf.Sub[Case]{Name: "wcnf", Quick: 8000, Thorough: 100000, Gen: genWCNF, Check: checkWCNF, Floor: 0.18, Journal: true,
 			Rule: "ParseWCNF of a generated text (declared variables >= highest used, with/without top weight, soft weights < top, empty clauses, duplicate literals), Optimal(nil) and Optimal(chan) each on a fresh solver; oracle = brute force over the declared variables; non-trivial as above"},
 	)
